@@ -209,6 +209,9 @@ def strat_torus(tier):
         "src": st.tuples(coord, coord, st.integers(-20, 20)),
         "dst": st.tuples(coord, coord, st.integers(-20, 20)),
         "choice": st.integers(0, 3), "spiral": st.integers(0, 300),
+        # any (x, y, z) vector can be walked, not only shortest ones
+        "vec": st.tuples(st.integers(-12, 12), st.integers(-12, 12),
+                         st.integers(-12, 12)),
         "perm": st.integers(0, 5)})
 
 
@@ -232,6 +235,20 @@ def check_torus_sampled(case):
         start = (s2[0] % w, s2[1] % h)
         _check_ldf(utils, v, start, d2, w, h, dist, det,
                    [PERMS[case["perm"]]])
+    if case.get("vec") is not None:
+        vx, vy, vz = case["vec"]
+        start = (s2[0] % w, s2[1] % h)
+        end = (start[0] + vx - vz, start[1] + vy - vz)
+        _check_ldf(utils, (vx, vy, vz), start, end, w, h,
+                   abs(vx) + abs(vy) + abs(vz), dict(det, walk="any vector"),
+                   [PERMS[case["perm"]]])
+        if case["perm"] % 2:
+            # ... also with only one axis wrapping
+            _check_ldf(utils, (vx, vy, vz), (start[0], s2[1]),
+                       (end[0], s2[1] + vy - vz), w, None,
+                       abs(vx) + abs(vy) + abs(vz),
+                       dict(det, walk="any vector, width only"),
+                       [PERMS[case["perm"]]])
     return {"nontrivial": dist >= 2,
             "classes": ["thin"] if min(w, h) <= 2 else []}
 
@@ -352,6 +369,11 @@ def check_hexagons(case):
     r = case["r"]
     sx, sy = case["start"]
     with sut("concentric_hexagons"):
+        # a caller that searches outwards stops at its first hit: a
+        # generator of the same radius is abandoned after a few chips
+        search = geometry.concentric_hexagons(r, (sx + 1, sy - 2))
+        for _ in zip(range(1 + (r + sx) % 5), search):
+            pass
         got = [tuple(c) for c in geometry.concentric_hexagons(r, (sx, sy))]
     expect = set((sx + x, sy + y) for (x, y), d in hexgrid.mesh_bfs(r).items())
     require(len(got) == len(set(got)), "concentric_hexagons yields a chip "
@@ -382,7 +404,7 @@ CLAUSES = [
     Clause("torus-sampled", check_torus_sampled, strategy=strat_torus,
            rule="random w, h <= 64/256, arbitrary integer xyz coordinates, "
                 "drawn tie-break outcomes; non-trivial = distance >= 2",
-           examples={"quick": 1500, "thorough": 20000},
+           examples={"quick": 5000, "thorough": 40000},
            shards={"quick": 4, "thorough": 16}),
     Clause("mesh", check_mesh, enumerate=enum_mesh, exhaustive=True,
            rule="all vectors in a (2r+1)^2 window from 4 start chips x 3 "
